@@ -23,6 +23,7 @@ func c06Spaces(tier string) []pairLeg {
 		}
 		add("A4cont", Arr(4, "cont"))
 		add("U5", noVoid(U(5)))
+		add("deep", Deep(true))
 		add("E3", EditStates(3, 4000))
 	} else {
 		add("A6x123", Arr(6, "123"))
@@ -34,6 +35,7 @@ func c06Spaces(tier string) []pairLeg {
 		}
 		add("A3cont", Arr(3, "cont"))
 		add("U4", noVoid(U(4)))
+		add("deep", Deep(true))
 		add("E2", EditStates(2, 800))
 	}
 	return legs
@@ -97,7 +99,59 @@ func peEq(a, b []ref.PE) bool {
 }
 
 type c06stats struct {
-	scalarLevels, recursed, levels int
+	scalarLevels, recursed, levels, gapRecursions int
+}
+
+// uniqueAlignment returns the matched index pairs of the longest common subsequence of xs and
+// ys if there is exactly one way to choose them, else ok=false.
+func uniqueAlignment(xs, ys []string, l int) (pairs [][2]int, ok bool) {
+	if len(xs) > 9 || len(ys) > 9 {
+		return nil, false
+	}
+	// suffix LCS table
+	n, m := len(xs), len(ys)
+	t := make([][]int, n+1)
+	for i := range t {
+		t[i] = make([]int, m+1)
+	}
+	for i := n - 1; i >= 0; i-- {
+		for j := m - 1; j >= 0; j-- {
+			if xs[i] == ys[j] {
+				t[i][j] = t[i+1][j+1] + 1
+			} else if t[i+1][j] >= t[i][j+1] {
+				t[i][j] = t[i+1][j]
+			} else {
+				t[i][j] = t[i][j+1]
+			}
+		}
+	}
+	count := 0
+	var found [][2]int
+	var cur [][2]int
+	var rec func(i, j, need int)
+	rec = func(i, j, need int) {
+		if count > 1 {
+			return
+		}
+		if need == 0 {
+			count++
+			if count == 1 {
+				found = append([][2]int{}, cur...)
+			}
+			return
+		}
+		for a := i; a < n; a++ {
+			for b := j; b < m; b++ {
+				if xs[a] == ys[b] && t[a+1][b+1] == need-1 && t[a][b] >= need {
+					cur = append(cur, [2]int{a, b})
+					rec(a+1, b+1, need-1)
+					cur = cur[:len(cur)-1]
+				}
+			}
+		}
+	}
+	rec(0, 0, l)
+	return found, count == 1
 }
 
 // checkLevels walks a and b in parallel and checks minimality at every array level that is
@@ -142,7 +196,30 @@ func checkLevels(a, b V, prefix []ref.PE, hunks []ref.Hunk, st *c06stats) string
 			allScalar = allScalar && isScalar(e)
 		}
 		l := ref.LCSLen(xs, ys)
-		if rem > len(x)-l || add > len(y)-l {
+		// Where the optimal alignment is unique, the elements between two matched anchors are
+		// paired in order; a pair of same-kind containers must be recursed into, not replaced,
+		// so neither of its members may be counted among the removed / added elements.
+		recursable := 0
+		if al, ok := uniqueAlignment(xs, ys, l); ok {
+			pi, pj := 0, 0
+			al = append(al, [2]int{len(x), len(y)})
+			for _, m := range al {
+				for k := 0; pi+k < m[0] && pj+k < m[1]; k++ {
+					if sameKindContainer(x[pi+k], y[pj+k]) {
+						recursable++
+					}
+				}
+				pi, pj = m[0]+1, m[1]+1
+			}
+			if recursable > 0 {
+				st.gapRecursions++
+			}
+		}
+		if rem > len(x)-l-recursable || add > len(y)-l-recursable {
+			if recursable > 0 && rem <= len(x)-l && add <= len(y)-l {
+				return fmt.Sprintf("array at %s: %d same-position same-kind container pair(s) between the common elements must be recursed into, but the hunks at this level remove %d and add %d elements (at most %d and %d if they recursed)",
+					ref.PathJSON(prefix), recursable, rem, add, len(x)-l-recursable, len(y)-l-recursable)
+			}
 			return fmt.Sprintf("array at %s: hunks remove %d and add %d elements, an optimal LCS script removes %d and adds %d", ref.PathJSON(prefix), rem, add, len(x)-l, len(y)-l)
 		}
 		if allScalar {
@@ -245,6 +322,9 @@ func runC06(c *engine.Case) engine.Result {
 	}
 	if st.scalarLevels > 0 {
 		res.Bucket += "/scalar-array-level"
+	}
+	if st.gapRecursions > 0 {
+		res.Bucket += "/gap-recursion"
 	}
 	res.Nontrivial = nh > 0
 	if fail != "" {
